@@ -9,15 +9,42 @@ def H(name, nch, fcap, buf, cmax, what, tiers=("quick", "thorough"), **kw):
                 what=what, functions=["zck_write_chunk_cb", "dl_write_range", "dl_write", "set_chunk_valid", "zero_chunk", "validate_chunk", "zck_dl_init", "zck_dl_set_range",
                                       "hash_init", "hash_update", "hash_finalize", "write_data", "seek_data"], tiers=tiers,
                 bounds="%d chunks of 1..%d stored bytes, any subset missing, payload bytes and digests symbolic (good and corrupt), every partition of the body into 1..3 non-empty callbacks, BUF_SIZE=%d" % (nch, cmax, buf), **kw)
+_msrcs = _srcs + ["src/lib/dl/multipart.c", "src/lib/index/index_common.c"]
+_mrb = dict(ERR, **{"src/lib/hash/hash.c": ["get_digest_string", "validate_chunk"], "src/lib/zck.c": ["zmalloc", "zrealloc"]})
+_mm = ["log_err.c", "files.c", "hash_nondet.c", "digeststr.c", "keyeq.c", "regex_exact.c", "mem.c", "ringalloc.c"]
+def M(name, cuts, v0, v2, what, extra=()):
+    c = list(cuts) + [0] * (3 - len(cuts))
+    return dict(file="C05m.c", name="h05m-" + name, function="h05m", repo_srcs=_msrcs, remove_bodies=_mrb, models=_mm,
+                cbmc_extra=["--max-field-sensitivity-array-size", "256"], defines=["-DFCAP=8", "-DV_BUF_SIZE=2", "-DV_UTHASH_MODEL", "-DMEM_MAX=136", "-DMEMSET_MAX=300", "-DRA_MAX=136", "-DV_READ_LOOP", "-DV0=%d" % v0, "-DV2=%d" % v2] + ["-DCUT%d=%d" % (k + 1, x) for k, x in enumerate(c)] + list(extra),
+                unwind=140, unwindset=["dl_write_range:5", "zero_chunk.0:3", "memset.0:302"], what=what, timeout=600,
+                functions=["zck_write_chunk_cb", "multipart_extract", "gen_regex", "add_boundary_to_regex", "dl_write_range", "dl_write", "set_chunk_valid", "zero_chunk", "zck_dl_free"],
+                bounds="multipart response with 2 parts (boundary B, extra part header line, mixed-case field name), 3 chunks of 2 bytes (0 and 2 requested), cuts %s, verdicts %d/%d; payload symbolic" % (cuts, v0, v2))
+# response layout: part1 header = 77 bytes (0..76), payload 77..78, part2 header 79..115 (37 bytes), payload 116..117, tail 118..126
+_MI = [
+    M("whole", [], 1, 1, "whole body in one callback"),
+    M("cut-hdr1", [10], 1, 1, "cut inside the first part header"),
+    M("cut-crlf", [75], 1, 1, "cut inside the CRLFCRLF that ends the first part header"),
+    M("cut-pay", [78], 1, 1, "cut inside the first payload"),
+    M("cut-after-pay-in-hdr2", [86], 1, 1, "fragment carries the end of part 1's data and an incomplete header of part 2"),
+    M("cut-hdr2-end", [79, 114], 1, 1, "cuts at the start of the second header and just before its end"),
+    M("cut-tail", [122], 1, 1, "cut inside the closing boundary"),
+    M("three", [40, 80, 117], 1, 1, "three cuts"),
+    M("step1", [], 1, 1, "one byte per callback", ("-DSTEP1",)),
+    M("bad0", [], -1, 1, "first requested chunk fails its checksum (whole body)"),
+    M("bad0-cut", [78], -1, 1, "first requested chunk fails its checksum, cut inside its payload"),
+    M("bad2", [86], 1, -1, "second requested chunk fails its checksum"),
+]
 SPEC = {
     "explanation": "plain (single-range) response body fed through zck_write_chunk_cb in three fragments with symbolic cut points; the asserted final "
                    "file bytes, marks and error signal are a function of the payload only, so they do not depend on the fragmentation",
-    "outside": ["multipart/byteranges responses (multipart.c): only its memory safety / clean failure under an over-approximated regex engine is decided (C17); "
-                "reassembly of multipart bodies needs glibc's regex semantics, which are not encodable here",
+    "outside": ["multipart responses other than the listed concrete shapes (other boundaries - in particular ones with regex metacharacters -, more parts, parts out of order, "
+                "other header spellings); the regex engine is the exact-matcher model env/regex_exact.c, not glibc",
                 "more than 3 fragments / chunks larger than the bound", "real SHA (C18)"],
     "assumptions": ["range index as zck_get_missing_range builds it (C10)", "hash back end = env/hash_acc.c", "no I/O errors (C12)"],
     "harnesses": [
         H("h05a", 2, 8, 2, 2, "two chunks, any subset requested"),
         H("h05a-3", 3, 10, 2, 2, "three chunks", tiers=("thorough",), mem_gb=16, timeout=3000),
-    ],
+    ] + [m for m in _MI if m["name"] in ("h05m-whole", "h05m-cut-hdr1", "h05m-cut-crlf", "h05m-bad0")],
+    # the other multipart instances (cuts inside / after a payload, one byte per callback, failing second chunk) are defined above but not
+    # registered: their symbolic execution did not end within 600 s (the part loop no longer resolves concretely after a mid-payload cut)
 }
